@@ -228,7 +228,8 @@ def check(run):
             st['surplus'] += 1
             tied, amb = extreme_set(cfg, pool, False)
             tie_ev = prev if prev.tag == 'tie' else None
-            if chosen not in tied and not amb:
+            gross = cfg.geps > 1 and max(pool.values()) - pool[chosen] >= cfg.geps + cfg.geps // 4
+            if chosen not in tied and (not amb or gross):
                 bad('surplus-not-largest', 'surplus of %d (%s) transferred first, largest are %s' % (chosen, cfg.frac(pool[chosen]), tied), ev)
             else:
                 judge_tie(tied, chosen, tie_ev, ev, False, amb)
@@ -301,10 +302,15 @@ def relational(case, rng, ctx):
 
 def coarse(rng, opts):
     """
-    one Meek-family case in five under very coarse guarded arithmetic (precision 0-2, a few guard digits): tallies then sit within
+    one parametric (wigm / Meek-family) case in five under very coarse guarded arithmetic (precision 0-2, a few guard digits): tallies then sit within
     a tolerance or two of one another all the time, which is where a lowest candidate found by tolerant comparisons and the true
     lowest part ways
     """
+    if opts['rule'] == 'wigm' and rng.random() < 0.2:
+        o = dict(rule='wigm', arithmetic='guarded', precision=rng.randint(0, 2), guard=rng.randint(1, 6))
+        if rng.random() < 0.3:
+            o['defeat_batch'] = 'zero'
+        return o
     if opts['rule'] in ('meek', 'warren') and rng.random() < 0.2:
         p = rng.randint(0, 2)
         o = dict(rule=opts['rule'], arithmetic='guarded', precision=p, guard=rng.randint(1, 3))
